@@ -33,10 +33,36 @@ def one(seed):
         demos = [demo] if isinstance(demo, str) else list(demo)
         mod = module_of(demos[0])
         moddir = os.path.join(d, mod)
+        internal = mod == "internal"
+        stage = "/tmp/seedstage-%s-%d" % (tag, os.getpid())
+
+        def restage():
+            """internal/* is outside every module: build it from a staging module"""
+            shutil.rmtree(stage, ignore_errors=True)
+            os.makedirs(stage)
+            open(os.path.join(stage, "go.mod"), "w").write(
+                "module github.com/fogfish/golem\n\ngo 1.24\n\nrequire github.com/fogfish/golem/pure v0.0.0\n\n"
+                "replace github.com/fogfish/golem/pure => %s/pure\n" % d)
+            shutil.copy(os.path.join(d, "pure/go.sum"), stage)
+            shutil.copytree(os.path.join(d, "internal/maplike"), os.path.join(stage, "maplike"))
+            shutil.copytree(os.path.join(d, "internal/seq"), os.path.join(stage, "seq"))
+            os.makedirs(os.path.join(stage, "ipipe"))
+            for n in os.listdir(os.path.join(d, "internal/pipe")):
+                src = open(os.path.join(d, "internal/pipe", n)).read()
+                # the stock test imports the package under a path that exists in no module
+                src = src.replace('"github.com/fogfish/golem/pure"', '"github.com/fogfish/golem/ipipe"')
+                open(os.path.join(stage, "ipipe", n), "w").write(src)
+
+        def staged_pkg(dm):
+            rel = os.path.dirname(dm)[len("internal/"):]
+            return "./" + ("ipipe" if rel.startswith("pipe") else rel)
         # demonstration on the unchanged library
         for dm in demos:
             shutil.copy(os.path.join(seed, os.path.basename(dm)), os.path.join(d, dm))
         pkg = "./" + os.path.dirname(os.path.relpath(os.path.join(d, demos[0]), moddir))
+        if internal:
+            restage()
+            pkg, moddir = staged_pkg(demos[0]), stage
         rc0, out0 = sh([GO, "test", "-vet=off", "-count=1", pkg], moddir)
         res["demo_without_change"] = "pass" if rc0 == 0 else "FAIL"
         # apply the change
@@ -44,11 +70,15 @@ def one(seed):
         if rc != 0:
             res["error"] = "patch does not apply: " + out[-300:]
             return res
+        if internal:
+            restage()
         rc1, out1 = sh([GO, "test", "-vet=off", "-count=1", pkg], moddir)
         res["demo_with_change"] = "fail" if rc1 != 0 else "PASS"
         # existing tests with the change (demo removed)
         for dm in demos:
             os.remove(os.path.join(d, dm))
+        if internal:
+            restage()
         rc2, out2 = sh([GO, "test", "-vet=off", "-count=1", "./..."], moddir)
         res["existing_tests_with_change"] = "pass" if rc2 == 0 else "FAIL: " + out2[-300:]
         # our check against the mutated copy
@@ -72,6 +102,7 @@ def one(seed):
         return res
     finally:
         shutil.rmtree(d, ignore_errors=True)
+        shutil.rmtree("/tmp/seedstage-%s-%d" % (tag, os.getpid()), ignore_errors=True)
 
 
 for s in sys.argv[1:]:
